@@ -175,6 +175,10 @@ func BuildRoot(w *World, root string, lib *OpLib) {
 		// read 0), during which two external incentives with reward denoms NEW to pool 2 started and a
 		// second account joined that pool; the feed returns with the next ordinary op
 		prefix = []string{"perp_open_long_t1", "perp_open_short_t2", "llp_open_t1_x3", "swap_in_p1_usdc_atom_L", "swap_in_p2_elys_usdc_L", "gap_1d", "mc_claim_lp1", "commit_eden_lp1", "vest_eden_lp1", "stake_elys_lp1", "nofeed", "nofeed", "ext_incentives_two_new_denoms_lp1_nofeed", "nofeed", "join_p2_big_t1_nofeed"}
+	case "R10":
+		// R1 with a governance-registered liquid vesting of an external asset: lp1 holds a ueden -> uelys
+		// vesting AND a uatom -> uatom one (MsgVestLiquid), both releasing from the next block on
+		prefix = []string{"perp_open_long_t1", "perp_open_short_t2", "llp_open_t1_x3", "swap_in_p1_usdc_atom_L", "swap_in_p2_elys_usdc_L", "gap_1d", "mc_claim_lp1", "commit_eden_lp1", "vest_eden_lp1", "stake_elys_lp1", "cfg_vestinfo_uatom", "vest_liquid_uatom_lp1", "empty", "empty", "empty"}
 	case "R4":
 		// R1 with a large loan outstanding for 30 days under the default every-block sweep: the
 		// interest is booked, so the vault's redemption rate sits visibly above 1 (≈ 1.005)
@@ -196,7 +200,7 @@ func BuildRoot(w *World, root string, lib *OpLib) {
 
 // Variants are configuration changes permitted by validation, applied through the real gov
 // message servers (with the message's ValidateBasic when it has one) at fixture time.
-var AllVariants = []string{"", "llp_fallback_off", "mc_lps1", "mc_lps0_stakers1", "mc_stakers_tiny", "es_provider1", "es_provider0", "oracle_min", "vest_blocks0", "perp_extreme", "ss_rates_equal", "tok_inflation_deleted", "tok_window_future"}
+var AllVariants = []string{"", "llp_fallback_off", "mc_lps1", "mc_lps0_stakers1", "mc_stakers_tiny", "es_provider1", "es_provider0", "oracle_min", "vest_blocks0", "perp_extreme", "ss_rates_equal", "tok_inflation_deleted", "tok_window_future", "vestinfo_uatom"}
 
 type validator interface{ ValidateBasic() error }
 
@@ -317,6 +321,17 @@ func variantGov(w *World, variant string) func(ctx sdk.Context) error {
 				return err
 			}
 			return nil
+		}
+	case "vestinfo_uatom":
+		// governance registers a LIQUID vesting schedule for an external asset (uatom vests into uatom
+		// over 100 blocks) next to the default ueden -> uelys one
+		return func(ctx sdk.Context) error {
+			m := &ctypes.MsgUpdateVestingInfo{Authority: gov, BaseDenom: "uatom", VestingDenom: "uatom", NumBlocks: 100, VestNowFactor: 90, NumMaxVestings: 10}
+			if err := vb(m); err != nil {
+				return err
+			}
+			_, err := cmkeeper.NewMsgServerImpl(*app.CommitmentKeeper).UpdateVestingInfo(ctx, m)
+			return err
 		}
 	case "ss_rates_equal":
 		return func(ctx sdk.Context) error {
